@@ -344,8 +344,11 @@ func (s *bscen) mutate(recs []dbh.Rec, asBatch bool, expectFail bool) {
 	}
 	items, ok := s.kputs(recs, before, after, failedAt)
 	if !ok {
+		// never seen on the unchanged tree: the nodes of the private memdb and the private tables do not
+		// account for the records tr.seq says were applied
 		s.dead = true
 		s.out.count("bytes_case_dropped_unrenderable_write")
+		s.bad("after a transaction write (%d records, tr.seq advanced by %d, returned %v) the private memdb and tables do not hold what applying that prefix leaves (nodes / table contents do not match the sequence numbers)", len(recs), applied, err)
 		return
 	}
 	okS := vlib.CoqBool(err == nil)
